@@ -75,12 +75,13 @@ class Chooser:
         if k == 'mark_as_output':
             return {'a': 'mark_as_output', 'l': 'missing' if bad else pick(labels)}
         if k == 'set_outputs':
-            return {'a': 'set_outputs', 'q': [pick(labels) for _ in range(rng.randint(0, 3))]}
+            return {'a': 'set_outputs', 'q': [pick(labels) for _ in range(rng.randint(0, 3))] + (['missing'] if bad else [])}
         if k == 'set_inputs':
             q = list(ins)
             rng.shuffle(q)
             if bad and q:
-                q = q[:-1]
+                how = rng.randrange(3)      # an input dropped / repeated / a label that is no gate
+                q = q[:-1] if how == 0 else (q[:-1] + [q[0]] if how == 1 else q[:-1] + ['missing'])
             return {'a': 'set_inputs', 'q': q}
         if k == 'order_inputs':
             q = rng.sample(ins, rng.randint(0, len(ins))) if ins else []
